@@ -104,6 +104,27 @@ IAddNone == \E r \in Live : Alias(r, r, [op |-> "IAddNone", r |-> r, rd |-> r]) 
 ISub     == \E r \in Live, cs \in {<<"b">>, <<"a", "d">>} : SoleName(r) /\                                 \* e -= c, e -= [c, ...]
                Alloc(r, MinusColsT(T(r), cs), [op |-> "ISub", r |-> r, rd |-> r, cs |-> cs])
 
+\* ---- three or more operands in ONE call (round 5) -------------------------------------------------------------------
+\* dictable.concat(x1, ..., xn) / concat([x1, ..., xn]) / sum([x1, ..., xn]) / x1 + x2 + ... + xn: tables of the session (the same one
+\* may stand at several places) and single records mixed.  The result is a new table in r3; every operand is what it was.
+OpT(o) == IF o[1] = "r" THEN T(o[2]) ELSE RecordT(o[3])
+OpTables(ops) == [k \in 1..Len(ops) |-> OpT(ops[k])]
+ConcatNOf(ops) == Alloc("r3", ConcatManyT(OpTables(ops)), [op |-> "ConcatN", ops |-> ops, rd |-> "r3"])
+\* the shapes used inside the general machine (1, 2 = two tables, 3, 4 = the records of RecMenu); the directed form NextNary takes every list
+NaryShapes == {<<1, 2, 1>>, <<1, 3, 2>>, <<4, 1, 2>>, <<1, 2, 4, 1>>, <<2, 1, 2, 1, 2>>}
+ShapeOps(sh, ra, rb) == [k \in 1..Len(sh) |-> CASE sh[k] = 1 -> <<"r", ra, <<>>>> [] sh[k] = 2 -> <<"r", rb, <<>>>>
+                                                [] sh[k] = 3 -> <<"rec", "", RecMenu[1]>> [] sh[k] = 4 -> <<"rec", "", RecMenu[2]>>]
+ConcatN  == \E ra \in Live, rb \in Live, sh \in NaryShapes : ConcatNOf(ShapeOps(sh, ra, rb))
+\* ---- a small pattern scaled up (round 5; the recorded histories do this with 17 .. 1025 rows, see DictableOps) -------
+BigSeeds == {[kind |-> "rows", hdrs |-> <<"a", "b">>, rows |-> <<<<V1, VX>>, <<None, V2>>>>],
+             [kind |-> "recs", recs |-> <<<<<<"a", V2>>, <<"b", None>>>>, <<<<"a", VX>>>>, <<<<"b", V1>>, <<"c", VX>>>>>>]}
+NewBig   == \E rd \in {"r1", "r2"}, s \in BigSeeds, nb \in {<<4, 1>>, <<4, 2>>, <<5, 1>>} :
+               Alloc(rd, Ok(BigT(Construct(s).t, nb[1], nb[2])), [op |-> "NewBig", rd |-> rd, seed |-> s, n |-> nb[1], b |-> nb[2]])
+MaskCyc  == \E r \in Live, pat \in {<<TRUE, FALSE>>, <<FALSE, TRUE, TRUE>>} :                \* d[pattern cycled to len(d)]
+               Alloc(NextReg(r), MaskSeqT(T(r), CycleTo(pat, NR(T(r)))), [op |-> "MaskCyc", r |-> r, rd |-> NextReg(r), pat |-> pat])
+SetColCyc == \E r \in Live, pat \in {<<V2, VX>>, <<None, V1, VX>>} : NR(T(r)) > 1 /\         \* d[c] = pattern cycled to len(d)
+               InPlace(r, SetColT(T(r), "a", CycArg(pat, NR(T(r)))), [op |-> "SetColCyc", r |-> r, c |-> "a", pat |-> pat])
+
 \* ---- calls that take the caller's argument objects (av), and the caller's own actions on them ----------------------
 \* The history names the object, not its value: the driver keeps ONE Python object per name for the whole session and hands
 \* that very object to every call that names it; all of them are observed afterwards (Snapshot.args).
@@ -158,10 +179,10 @@ ArgCalls    == ArgMakers \/ ArgChangers
 CallerEdits == MapSet \/ MapDel \/ RnSet \/ RnDel \/ RecsAppend \/ RecSet \/ LAppend \/ CsAppend \/ CsPop \/ IxAppend
 
 Init == heap = <<>> /\ reg = [r \in Regs |-> 0] /\ out = "ok" /\ hist = <<>> /\ av = W0
-Makers   == Slice \/ Mask \/ Take \/ Project \/ Derive \/ DeriveConst \/ DerivePair \/ Do \/ Rename \/ Swap \/ Concat \/ AddRec \/ Copy \/ Minus \/ NoFilter \/ AddNone \/ ConcatOne
-Changers == SetCol \/ SetFrom \/ DelCol \/ Update \/ IAddRec \/ IAddTab \/ IAddNone \/ ISub
-Next == Len(hist) < MaxDepth /\ (New \/ Makers \/ Changers \/ ArgCalls \/ CallerEdits \/ (hist = <<>> /\ Bind))       \* exhaustive runs: no successors are built beyond the bound
-NextSim == New \/ Makers \/ Changers \/ ArgCalls \/ CallerEdits \/ Bind                              \* simulation: the depth of the run is the bound
+Makers   == ConcatN \/ MaskCyc \/ Slice \/ Mask \/ Take \/ Project \/ Derive \/ DeriveConst \/ DerivePair \/ Do \/ Rename \/ Swap \/ Concat \/ AddRec \/ Copy \/ Minus \/ NoFilter \/ AddNone \/ ConcatOne
+Changers == SetColCyc \/ SetCol \/ SetFrom \/ DelCol \/ Update \/ IAddRec \/ IAddTab \/ IAddNone \/ ISub
+Next == Len(hist) < MaxDepth /\ (New \/ NewBig \/ Makers \/ Changers \/ ArgCalls \/ CallerEdits \/ (hist = <<>> /\ Bind))       \* exhaustive runs: no successors are built beyond the bound
+NextSim == New \/ NewBig \/ Makers \/ Changers \/ ArgCalls \/ CallerEdits \/ Bind                              \* simulation: the depth of the run is the bound
 Bound == Len(hist) <= MaxDepth /\ \A o \in 1..Len(heap) : Len(heap[o].rows) <= MaxRowsC
 \* the directed history form: one table in r1, a table made from it, then any of the live tables changed in place or grown
 DerivedSeeds == {[kind |-> "cols", cols |-> <<"a", "b">>, args |-> <<<<"l", <<V1, V2>>>>, <<"l", <<VX, None>>>>>>],
@@ -199,6 +220,20 @@ SharedFrom(Ws, S, edits) ==
 NextShared == SharedFrom({W0}, {s \in SharedSeeds : s.kind = "cols"}, "same")
 NextSharedAll == SharedFrom(Worlds, SharedSeeds, "same")                       \* thorough tier: every world of objects, every seed table
 NextSharedEdit == SharedFrom({W0}, {s \in SharedSeeds : s.kind = "cols" /\ s.cols[1] = "a"}, "all")      \* thorough tier: call ; any edit ; any call
+\* the directed history form for n-ary calls: two tables, then ONE concat call over every list of 3 .. MaxN operands drawn from the two
+\* tables and the two records (a column present / absent / present again along the list; the same table twice; a record first);
+\* lists longer than FullN hold tables only
+NarySeeds == {[kind |-> "cols", cols |-> <<"a", "b">>, args |-> <<<<"l", <<V1, V2>>>>, <<"l", <<VX, None>>>>>>],           \* a, b
+              [kind |-> "cols", cols |-> <<"a">>, args |-> <<<<"l", <<V2, VX, None>>>>>>],                                \* a only
+              [kind |-> "rows", hdrs |-> <<"c", "b", "a">>, rows |-> <<<<V1, V2, VX>>>>],                                 \* a, b and a third column
+              [kind |-> "rows", hdrs |-> <<"a", "b">>, rows |-> <<>>],                                                    \* columns, no rows
+              [kind |-> "cols", cols |-> <<>>, args |-> <<>>]}                                                            \* no columns
+NaryFrom(S, FullN, MaxN) ==
+    \/ hist = <<>> /\ \E s \in S : Alloc("r1", Construct(s), [op |-> "New", rd |-> "r1", seed |-> s])
+    \/ Len(hist) = 1 /\ \E s \in S : Alloc("r2", Construct(s), [op |-> "New", rd |-> "r2", seed |-> s])
+    \/ Len(hist) = 2 /\ \E n \in 3..MaxN : \E ops \in SeqsOf(IF n <= FullN THEN OperandSet({"r1", "r2"}) ELSE {<<"r", "r1", <<>>>>, <<"r", "r2", <<>>>>}, n) : ConcatNOf(ops)
+NextNary == NaryFrom(NarySeeds, 3, 5)
+NextNaryAll == NaryFrom(NarySeeds, 4, 6)          \* thorough tier
 View == <<heap, reg, out, av>>
 
 \* ---- properties -------------------------------------------------------------------------------
@@ -209,7 +244,7 @@ AllRectangular == \A o \in 1..Len(heap) : Rectangular(heap[o]) /\ (heap[o].cols 
                                           /\ Cardinality(Range(heap[o].cols)) = Len(heap[o].cols)
 \* a call changes at most one existing object - the target of an in-place call - and never on rejection
 OnlyTargetChanges == [][\A o \in 1..Len(heap) : heap'[o] # heap[o] =>
-                           /\ Last(hist').op \in {"SetCol", "SetFrom", "DelCol", "Update", "SetColL", "UpdateMap"}
+                           /\ Last(hist').op \in {"SetCol", "SetColCyc", "SetFrom", "DelCol", "Update", "SetColL", "UpdateMap"}
                            /\ o = reg[Last(hist').r]]_vars
 RejectedLeavesState == [][(out' \in {"ValueError", "KeyError", "IndexError", "TypeError"} /\ Last(hist').op \notin {"Update", "UpdateMap"}) => (heap' = heap /\ reg' = reg)]_vars
 \* a call owns nothing of the caller: only the caller's own actions change the caller's objects, and those change no table
@@ -221,6 +256,35 @@ ConcatLaw == \A ra \in Live, rb \in Live :
                 /\ NR(c) = NR(T(ra)) + NR(T(rb))
                 /\ \A i \in 1..NR(T(ra)) : \A cc \in ColSet(c) : c.rows[i][cc] = (IF cc \in ColSet(T(ra)) THEN T(ra).rows[i][cc] ELSE None)
                 /\ \A i \in 1..NR(T(rb)) : \A cc \in ColSet(c) : c.rows[NR(T(ra)) + i][cc] = (IF cc \in ColSet(T(rb)) THEN T(rb).rows[i][cc] ELSE None)
+\* ONE call over n operands is the chained binary form, and says what the statement says: the rows of the operands in order, the union
+\* of the columns, None wherever the operand a row comes from lacks the column
+RECURSIVE RowsBefore(_, _)
+RowsBefore(ts, k) == IF k = 1 THEN 0 ELSE RowsBefore(ts, k - 1) + NR(ts[k - 1])
+ConcatNLaw == \A ra \in Live, rb \in Live, sh \in NaryShapes :
+                LET ts == OpTables(ShapeOps(sh, ra, rb))  c == ConcatManyT(ts).t IN
+                /\ c = ConcatChainT(ts).t
+                /\ ColSet(c) = UNION {ColSet(ts[k]) : k \in 1..Len(ts)}
+                /\ NR(c) = RowsBefore(ts, Len(ts) + 1)
+                /\ \A k \in 1..Len(ts) : \A i \in 1..NR(ts[k]) : \A cc \in ColSet(c) :
+                      c.rows[RowsBefore(ts, k) + i][cc] = (IF cc \in ColSet(ts[k]) THEN ts[k].rows[i][cc] ELSE None)
+\* the scaling laws: a row-selecting or row-wise call on k copies of the rows yields k copies of what it yields on the rows, in order
+\* (this is how the recorded histories on tables of 17 .. 1025 rows relate to the small tables TLC enumerates)
+ScaleLaws == \A r \in Live : NR(T(r)) > 0 =>
+                LET t == T(r)  n == NR(t)  c1 == t.cols[1] IN \A k \in (IF n <= 2 THEN {2, 3} ELSE {2}) :
+                LET big == CopiesT(t, k) IN
+                /\ \A m \in {"odd", "all", "nothing"} : MaskSeqT(big, CycleTo(MaskOf(n, m), k * n)).t = CopiesT(MaskT(t, m).t, k)
+                /\ ConcatT(big, t).t = CopiesT(t, k + 1)
+                /\ ConcatManyT([j \in 1..k |-> t]).t = big
+                /\ SliceGenT(big, <<0, 0>>, <<1, n>>, 1).t = t                          \* d[:n]: the first copy
+                /\ SliceGenT(big, <<1, -n>>, <<0, 0>>, 1).t = t                         \* d[-n:]: the last copy
+                /\ SliceGenT(BigT(t, k * n, k), <<0, 0>>, <<0, 0>>, k).t = t            \* every row k times in a row, then d[::k]
+                /\ SliceT(big, "rev").t = CopiesT(SliceT(t, "rev").t, k)
+                /\ \A p \in 0..(n - 1) : TakeT(big, <<p + n, p - n>>).t = TakeT(t, <<p, p>>).t
+                /\ ProjectT(big, <<c1>>).t = CopiesT(ProjectT(t, <<c1>>).t, k)
+                /\ MinusColsT(big, <<c1>>).t = CopiesT(MinusColsT(t, <<c1>>).t, k)
+                /\ HasCol(t, "a") => DeriveT(big, "c", "a_or_2").t = CopiesT(DeriveT(t, "c", "a_or_2").t, k)
+                /\ DoT(big, <<"none0">>, <<>>).t = CopiesT(DoT(t, <<"none0">>, <<>>).t, k)
+                /\ SetColT(big, "a", CycArg(ColVals(t, c1), k * n)).t = CopiesT(SetColT(t, "a", <<"l", ColVals(t, c1)>>).t, k)
 
 \* a per-column transform with several columns / several functions is the same as its single steps one call after the other,
 \* each on the table the previous one returned (columns in the order given, for each column the functions in the order given)
@@ -237,4 +301,5 @@ Emit == PrintT(ToJson(Snapshot))
 GenBound == Bound /\ (hist # <<>> => Emit)
 SimBound == Bound /\ (Len(hist) = MaxDepth => Emit)
 SharedBound == Bound /\ (Len(hist) >= 3 => Emit)
+NaryBound == Bound /\ (Len(hist) = 3 => Emit)
 =============================================================================
